@@ -121,6 +121,13 @@ Theorem C11_column_within_line_bytes : forall input p, inside_bytes input p ->
 Proof. exact inside_bytes_col_le_bytes. Qed.
 Print Assumptions C11_column_within_line_bytes.
 
+(* ... and it is the position of a byte offset of the Go string: of a byte prefix ending at a rune
+   boundary of []rune(input) (P pre = the (line, column) reached after the runes pre) *)
+Theorem C11_position_is_byte_offset : forall input p, valid_pos (utf8_decode input) p ->
+  exists bpre bx, input = bpre ++ bx /\ p = P (utf8_decode bpre).
+Proof. exact valid_pos_byte_offset. Qed.
+Print Assumptions C11_position_is_byte_offset.
+
 (* fragmentsToFile's only index expression, fragments[len(fragments)-1], is in bounds: the function
    with that index as an explicit Panic site returns exactly what the model's fragments_to_file
    returns (whose `last ... None` arm is therefore dead) *)
